@@ -286,6 +286,17 @@ def runC18r (t : Tier) : Emit Unit := do
       let posS := if kind == .bufio then "-" else toString off
       let spec := if prefixOK then some ("|".intercalate ((rs.map (·.show kind)) ++ [s!"err:io@{posS}"]) ++ ";skip=[];parser=[];stable=true") else none
       emit "C18" (demuxCase bs { cfg with view := .seq } (some (List.replicate k Call.next)) spec "reader-fault")
+    -- auto-detection on readers that can be neither rewound nor peeked: faults inside the detection window and inside the
+    -- re-synchronisation read that follows it (offsets 0..380): the first call returns an error wrapping the cause
+    for off in [0, 1, 100, 192, 193, 194, 250, 300, 375, 376, 380] do
+      for kind in [ReaderKind.plain, .bufioSmall] do
+        let once ← liftGen randBool
+        let cfg : DemuxCfg := { size := 0, kind := kind, fault := some (off, once), packetAPI := true, chunks := [70] }
+        let posS := if kind == .bufioSmall then "-" else toString off
+        if off < 376 then
+          emit "C18" (demuxCase bs { cfg with view := .seq } (some [Call.next]) (some (s!"err:io@{posS}" ++ ";skip=[];parser=[];stable=true")) "reader-fault-unpeekable-auto")
+        else
+          emit "C18" (demuxCase bs { cfg with view := .seq } (some [Call.next, Call.next]) none "reader-fault-unpeekable-auto")
 
 /-! ### C19 -/
 def runC19 (t : Tier) : Emit Unit := do
@@ -352,6 +363,14 @@ def runC19 (t : Tier) : Emit Unit := do
     emit "C19" (demuxCase bs2 { view := .perpid, parser := .dropper } none (some (showPerPID [] 0 "eof")) "parser-dropper")
     emit "C19" (demuxCase bs2 { view := .seq, parser := .dropper } none none "parser-dropper-log")
     emit "C19" (demuxCase bs2 { view := .seq, parser := .observer } none none "parser-observer-log")
+    -- null packets (PID 0x1fff, with payload) form a unit like any other: the custom parser is handed it at the end of the stream
+    let nulls := [nullPacket 0, nullPacket 1, nullPacket 2]
+    let withNulls := (m2.packets.take 1) ++ nulls.take 1 ++ (m2.packets.drop 1) ++ nulls.drop 1
+    let perRepl : List (Nat × List DemuxerData) := (perPID m2.units).map (fun (pid, _, _) =>
+        (pid, (m2.units.filter (fun u => u.pid == pid)).map fun u => replacerData (packetsOf u 0)))
+    let allRepl : List (Nat × List DemuxerData) := perRepl ++ [(0x1fff, [replacerData nulls])]
+    let replN := showPerPID ((allRepl.toArray.qsort (fun a b => a.1 < b.1)).toList) 0 "eof"
+    emit "C19" (demuxCase (bytesOf withNulls) { view := .perpid, parser := .replacer } none (some replN) "parser-replacer-null-packets")
     emit "C19" (demuxCase bs2 { view := .seq, parser := .failing } none none "parser-failing")
     -- a parser that fails (skip = false): every unit handed over before the end of the stream yields the parser's error, never default data
     -- (units flushed by the end-of-stream drain are logged, not returned: every PID's last unit)
@@ -389,7 +408,9 @@ def runC20sizes (t : Tier) : Emit Unit := do
     let m ← liftGen (smallStream i)
     let big := expandStream m.packets 16 0xab
     let one := (m.bytes.take 188)
-    for (bs, size, tag) in [(big, 204, "rewind-explicit-204"), (one, 188, "rewind-explicit-single-packet")] do
+    -- (and the same inputs with auto-detection, which fails on them call after call: Rewind still goes back to offset 0)
+    for (bs, size, tag) in [(big, 204, "rewind-explicit-204"), (one, 188, "rewind-explicit-single-packet"),
+                            (big, 0, "rewind-auto-detection-failing-204"), (one, 0, "rewind-auto-detection-failing-single-packet")] do
       for api in [false, true] do
         let cfg : DemuxCfg := { size := size, packetAPI := api }
         let total := callsToEOF (mkDemux bs cfg) api (bs.length / 188 + 8) 0
@@ -578,6 +599,9 @@ def runC16 (t : Tier) : Emit Unit := do
       -- returned so far is rendered again and must be unchanged
       let calls := ((List.range (total + 1)).map fun _ => [Call.next, Call.poison]).flatten
       emit "C16" (demuxCase bs { cfg with view := .seq } (some calls) none "poison-after-every-call" "" "stable")
+      -- with a custom parser that keeps the packets it is handed: they are not touched afterwards either
+      if !api then
+        emit "C16" (demuxCase bs { cfg with view := .seq, parser := .observer } (some calls) none "parser-keeps-its-packets" "" "stable")
   -- independent demuxers in different goroutines: each over its own stream (large units, so that the pooled payload
   -- buffers are in use for a while), all running together for several rounds; every result = the result alone = the model's
   for i in [0:(if t.quick then 2 else 10)] do
